@@ -25,6 +25,7 @@ type ModLoc struct {
 	Cap      bool // x[..cap] : the whole capacity window
 	Tail     bool // x[len..cap] : only the spare capacity
 	Whole    bool // x[*]  : every cell of the backing array of slice x (in-place append writes beyond len)
+	DelOnly  bool // m[-]  : entries of map m may be deleted; no entry is added or changed
 	E        Expr
 	Text     string
 	Ghost    string
@@ -384,6 +385,13 @@ func (cs *Contracts) loadFile(path string) error {
 						return fail(err)
 					}
 					cur.Modifies = append(cur.Modifies, ModLoc{Contents: true, Cap: true, E: e, Text: part})
+				case strings.HasSuffix(part, "[-]"):
+					// m[-]: entries of map m may be DELETED, none is added or changed (ext_maprange.go)
+					e, err := parseExpr(part[:len(part)-3])
+					if err != nil {
+						return fail(err)
+					}
+					cur.Modifies = append(cur.Modifies, ModLoc{Contents: true, DelOnly: true, E: e, Text: part})
 				case strings.HasSuffix(part, "[*]"):
 					e, err := parseExpr(part[:len(part)-3])
 					if err != nil {
